@@ -58,6 +58,11 @@ fn indices(len: usize, all: bool, salt: usize) -> Vec<usize> {
 }
 
 pub fn entries(base: &MpcCase, corrupt: usize, all_idx: bool, salt: usize) -> Result<Vec<Entry>, String> {
+    entries_filtered(base, corrupt, all_idx, salt, false)
+}
+
+/// `only_equivocation`: keep only the broadcast-equivocation rows (used for n = 4)
+pub fn entries_filtered(base: &MpcCase, corrupt: usize, all_idx: bool, salt: usize, only_equivocation: bool) -> Result<Vec<Entry>, String> {
     let tmpl = run_mpc(base, Adversary::default(), &ExecCfg { record_probes: false, ..Default::default() });
     check_codec(&tmpl.res.msgs)?;
     if !tmpl.res.outcomes.iter().all(|o| o.is_ok()) {
@@ -279,6 +284,10 @@ pub fn entries(base: &MpcCase, corrupt: usize, all_idx: bool, salt: usize) -> Re
         whitelist,
         ot_group: false,
     };
+    if only_equivocation {
+        out.retain(|e| e.row.starts_with("broadcast equivocation"));
+        return Ok(out);
+    }
     out.push(tap("coin toss: other pairwise seed opened than committed (tap)", "rng_pair_seed", None, TapAction::XorBytes(vec![0x5a]), "RNG ver", 0, wl(&["RNG ver"])));
     out.push(tap("coin toss: other multi-party seed opened than committed (tap)", "rng_multi_seed", None, TapAction::XorBytes(vec![0xa5]), "RNG ver", 1, wl(&["RNG ver"])));
     for j in indices(8, all_idx, salt) {
@@ -384,7 +393,7 @@ fn gen_hist() -> impl Strategy<Value = HistCase> {
 
 pub fn run(tier: Tier, seed: u64) -> i32 {
     let ctx = Ctx::new("C04", tier, seed, "fault_enumeration");
-    ctx.set_rule("(a) systematic enumeration of a hand-derived must-detect table over every verification step of preprocessing (coin-toss commitment/opening incl. consistent lie via tap, base-OT points, KOS correlation column and check values, aBit test bits/MACs, aShare commitments / check bit / MACs / opened key sum incl. committed lie via tap, HaAND/LaAND e/u/commitment/check value, bucket d-values and MACs and vector lengths, Beaver d/e and MACs incl. taps, broadcast equivocation for n=3) x every index of the checked vector (n=2) or first/last/rotating index (n=3) x single-recipient, all-recipient and every-batch variants; oracle: the honest recipient returns Err and starts no channel operation outside the round of the altered message. (b) proptest over honest histories under starving / lazy / random schedules: no party starts sending a reveal before it received every other party's commitment of that round. (c) challenge predictor (see extra.predictor). non-trivial = decided table entry / history with a commitment that arrived after the own commitment was sent");
+    ctx.set_rule("(a) systematic enumeration of a hand-derived must-detect table over every verification step of preprocessing (coin-toss commitment/opening incl. consistent lie via tap, base-OT points, KOS correlation column and check values, aBit test bits/MACs, aShare commitments / check bit / MACs / opened key sum incl. committed lie via tap, HaAND/LaAND e/u/commitment/check value, bucket d-values and MACs and vector lengths, Beaver d/e and MACs incl. taps, broadcast equivocation for n=3 and n=4) x every index of the checked vector (n=2) or first/last/rotating index (n=3) x single-recipient, all-recipient and every-batch variants; oracle: the honest recipient returns Err and starts no channel operation outside the round of the altered message. (b) proptest over honest histories under starving / lazy / random schedules: no party starts sending a reveal before it received every other party's commitment of that round. (c) challenge predictor (see extra.predictor). non-trivial = decided table entry / history with a commitment that arrived after the own commitment was sent");
     ctx.assume("every table row is detected by the correct protocol with probability >= 1-2^-40 independent of secrets; single-index tampering whose consumption depends on a secret bit is excluded (covered by the generic oracle of C02/C08)");
     // (a)
     let mut all = vec![];
@@ -394,6 +403,17 @@ pub fn run(tier: Tier, seed: u64) -> i32 {
         let base = MpcCase::simple(circ8(n), inputs, p_eval, (0..n).collect());
         let all_idx = n == 2 && (tier == Tier::Thorough || i == (seed as usize) % 2);
         match entries(&base, corrupt, all_idx, seed as usize + i) {
+            Ok(e) => all.extend(e),
+            Err(e) => {
+                ctx.infra(e);
+                return ctx.finish();
+            }
+        }
+    }
+    // n = 4: broadcast equivocation by the highest-index party (every party in thorough)
+    for corrupt in tier.pick(vec![3usize], vec![0, 1, 2, 3]) {
+        let base = MpcCase::simple(circ8(4), (0..4).map(|p| vec![(seed as usize + p) % 2 == 1]).collect(), 0, vec![0, 1, 2, 3]);
+        match entries_filtered(&base, corrupt, false, seed as usize, true) {
             Ok(e) => all.extend(e),
             Err(e) => {
                 ctx.infra(e);
